@@ -109,7 +109,7 @@ def unit_of(facts, name):
 def layout(facts):
     adt = facts.adt("client::pool::PoolInner")
     fl = adt["variants"][0]["fields"]
-    wi = [i for i, x in enumerate(fl) if re.search(r"HashMap<.*Token, .*(VecDeque|Vec)<.*Sender<", x["ty"])]
+    wi = [i for i, x in enumerate(fl) if re.search(r"HashMap<.*Token, .*(VecDeque|vec::Vec)<", x["ty"]) and "IdleConnections<" not in x["ty"]]
     ii = [i for i, x in enumerate(fl) if re.search(r"HashMap<.*Token, .*IdleConnections<", x["ty"])]
     ci = [i for i, x in enumerate(fl) if re.search(r"HashSet<.*Token>", x["ty"])]
     gi = [i for i, x in enumerate(fl) if x["ty"].endswith("pool::Config")]
